@@ -62,7 +62,8 @@ def main():
                 broken.append(dict(kind='translator', detail=p.stdout[-2000:]))
         # 2. prove
         roots = list(getattr(plugin, 'COQ_ROOTS', ['Props/%s.v' % pid]))
-        glue = 'Glue/%s_glue.v' % pid
+        runner = getattr(plugin, 'RUNNER', pid)
+        glue = 'Glue/%s_glue.v' % runner
         has_glue = os.path.exists(os.path.join(paths.COQ, glue))
         targets = [r[:-2] + '.vo' for r in roots] + ([glue[:-2] + '.vo'] if has_glue else [])
         ok, log, cmd = build.make(targets)
@@ -93,11 +94,11 @@ def main():
         # 3. model runner
         model = None
         if has_glue:
-            rok, rlog = build.build_runner(pid)
+            rok, rlog = build.build_runner(runner)
             if not rok:
                 broken.append(dict(kind='extraction', detail=rlog[-2000:]))
             else:
-                model = Model(pid)
+                model = Model(runner)
 
     # 4. correspond + oracle on the implementation
     ctx = Ctx(pid, tier, seed, model)
